@@ -247,7 +247,11 @@ class QuicLoggerTrace:
 
     def _encode_http3_headers(self, headers: Headers) -> list[dict]:
         return [
-            {"name": h[0].decode("utf8"), "value": h[1].decode("utf8")} for h in headers
+            {
+                "name": h[0].decode("utf8", errors="replace"),
+                "value": h[1].decode("utf8", errors="replace"),
+            }
+            for h in headers
         ]
 
     # CORE
